@@ -9,7 +9,9 @@ Lean re-checks the decidable obligation `check prog = linC|antiC|linR` on each; 
   1. corpus (regression inputs: negative entries, large magnitudes, offsets) on the real operators,
   2. the Python mirror of the checker (which picks the emitted tags) against the Lean checker on every program,
   3. direct numerical probes A(a x + b y) = a A(x) + b A(y), A(0) = 0 on every enumerated operator view (dyadic data,
-     complex scalars for operators over C),
+     complex scalars for operators over C), followed by the same evaluations on ONE NumPy buffer that is reused and
+     overwritten in place between the calls (object-identity reuse: an operator that remembers an earlier argument
+     object returns stale values), compared with fresh arrays,
   4. random scalar programs executed by the Lean semantics `run` versus an independent Python evaluation, and the
      checker's verdict against the numerical behaviour of those programs (soundness seen at run time),
   5. random JAX functions (linear and non-linear building blocks) traced, translated and judged by the Lean checker
@@ -186,7 +188,66 @@ def _lin_defect(lhs, rhs, nan_ok=False, relative=False):
     return worst
 
 
-def probe(fn, shp, dt, rng, field, mode="random"):
+def _inplace_sequence(fn, shp, dt, x, y, a, b, tol):
+    """History probe with object-identity reuse: ONE NumPy buffer per leaf is handed to the operator again and again
+    and overwritten IN PLACE between the calls (x, y, a x + b y, 0, then x and 2 x); every result must equal the result
+    on a fresh array with the same values, and the buffer results must satisfy the property themselves.  An operator
+    that remembers the argument object of an earlier call (memoisation keyed on identity, a kept reference to the input)
+    returns stale values here although every single call on fresh / immutable arrays is correct.
+    -> (failing dict | None, status)"""
+    shapes = ops.leaf_shapes(shp)
+    z = [(a * xi + b * yi).astype(dt) for xi, yi in zip(x, y)]
+    zero = [np.zeros(s, dtype=dt) for s in shapes]
+    two_x = [(2 * xi).astype(dt) for xi in x]
+    buf = [np.array(xi, dtype=dt, copy=True) for xi in x]
+    nested = ops.is_nested(shp)  # a BlockArray copies its blocks into jax arrays: repacked per call (no identity reuse)
+
+    def call():
+        return [np.array(r, copy=True) for r in ops.unpack(fn(ops.pack(shp, buf) if nested else buf[0]))]  # buf[0]: the very same object every time
+
+    def refill(vals, scale=None):
+        if scale is not None:
+            for b_ in buf:
+                b_ *= scale
+            return
+        for b_, v in zip(buf, vals):
+            b_[...] = v
+
+    try:
+        got = {}
+        got["x"] = call()
+        refill(y)
+        got["y"] = call()
+        refill(z)
+        got["a x + b y"] = call()
+        refill(zero)
+        got["0"] = call()
+        refill(x)
+        got["x again"] = call()
+        refill(None, scale=2)
+        got["2 x (buffer scaled in place)"] = call()
+    except Exception as e:  # noqa: BLE001  (the operator does not take NumPy arrays: nothing to observe)
+        return None, "numpy-argument-raises:" + type(e).__name__
+    fresh = {"x": x, "y": y, "a x + b y": z, "0": zero, "x again": x, "2 x (buffer scaled in place)": two_x}
+
+    def enc(ls):
+        return [{"shape": list(np.shape(l)), "re": np.real(l).ravel().tolist(), "im": (np.imag(l).ravel().tolist() if np.iscomplexobj(l) else None)} for l in ls]
+
+    for step, vals in fresh.items():
+        ref = _apply(fn, shp, vals)
+        d = _lin_defect(got[step], ref)
+        if d > 8 * tol:
+            return {"what": f"A(reused buffer holding {step}) != A(fresh array with the same values)", "step": step, "defect": d, "tol": tol, "mode": "inplace",
+                    "a": [float(np.real(a)), float(np.imag(a))], "b": [float(np.real(b)), float(np.imag(b))], "x": enc(x), "y": enc(y),
+                    "lhs": enc(got[step]), "rhs": enc(ref)}, "stale"
+    rhs = [a * p + b * q for p, q in zip(got["x"], got["y"])]
+    if _lin_defect(got["a x + b y"], rhs) > 8 * tol or any(np.any(np.asarray(p) != 0) for p in got["0"]):
+        return {"what": "the property fails on a reused buffer", "mode": "inplace", "a": [float(np.real(a)), float(np.imag(a))], "b": [float(np.real(b)), float(np.imag(b))],
+                "x": enc(x), "y": enc(y), "lhs": enc(got["a x + b y"]), "rhs": enc(rhs)}, "stale"
+    return None, "ok" if not nested else "ok-blockarray-repacked"
+
+
+def probe(fn, shp, dt, rng, field, mode="random", info=None):
     """one probe of additivity + homogeneity and of A(0) = 0.  -> (failing dict | None, nontrivial: bool)"""
     cplx_scalars = field == "C"
     shapes = ops.leaf_shapes(shp)
@@ -218,6 +279,12 @@ def probe(fn, shp, dt, rng, field, mode="random"):
     A0 = _apply(fn, shp, [np.zeros(s, dtype=dt) for s in shapes])
     if any(np.any(np.asarray(p) != 0) for p in A0):
         return {"what": "A(0) != 0", "A0": enc(A0), "mode": "zero"}, nontrivial
+    if mode in ("random", "inplace"):
+        bad, status = _inplace_sequence(fn, shp, dt, x, y, a, b, tol)
+        if info is not None:
+            info["inplace"] = status
+        if bad is not None:
+            return bad, nontrivial
     return None, nontrivial
 
 
@@ -298,8 +365,9 @@ def generate(ctx):
             return  # probed already, or left out by the thorough sampling and the program was accepted
         t = time.time()
         try:
-            bad, nontrivial = probe(fn, shp, dt, ctx.rng, tr.field_of(A), "random")
-            rec["probe"] = {"bad": bad, "nontrivial": nontrivial, "dtype": np.dtype(dt).name, "nested": ops.is_nested(shp)}
+            info = {}
+            bad, nontrivial = probe(fn, shp, dt, ctx.rng, tr.field_of(A), "random", info)
+            rec["probe"] = {"bad": bad, "nontrivial": nontrivial, "dtype": np.dtype(dt).name, "nested": ops.is_nested(shp), "inplace": info.get("inplace", "not-reached")}
         except Exception as e:  # noqa: BLE001
             rec["probe"] = {"raised": repr(e)[:200]}
         probe_time[0] += time.time() - t
@@ -442,6 +510,7 @@ def _probes(ctx, oracle_rng):
         ctx.count(f"probe:{r['view']}")
         ctx.count(f"probe-dtype:{pr['dtype']}")
         ctx.count("probe-blockarray" if pr["nested"] else "probe-array")
+        ctx.count("probe-inplace-buffer:" + str(pr.get("inplace", "n/a")))
         bad = pr["bad"]
         if bad is not None:
             bad.update(case)
@@ -992,6 +1061,12 @@ def replay(ctx, model, case):
         a, b = complex(*c["a"]), complex(*c["b"])
         if a.imag == 0 and b.imag == 0:
             a, b = a.real, b.real
+        if c.get("mode") == "inplace":
+            bad, _ = _inplace_sequence(fn, shp, dt, x, y, a, b, _tol(dt))
+            print("replay:", "property FAILS on implementation (reused buffer)" if bad else "no failure at this input", (bad or {}).get("what"))
+            if bad:
+                ctx.violation({"kind": "failing-input", "failing": c}, True, "replay")
+            return
         z = [(a * p + b * q).astype(dt) for p, q in zip(x, y)]
         lhs = _apply(fn, shp, z)
         rhs = [a * p + b * q for p, q in zip(_apply(fn, shp, x), _apply(fn, shp, y))]
